@@ -13,11 +13,12 @@ def hx(b):
 # values
 
 class Gen:
-    def __init__(self, rnd, max_depth=4, unicode_on=True, allow_nul_keys=True):
+    def __init__(self, rnd, max_depth=4, unicode_on=True, allow_nul_keys=True, comments=False):
         self.r = rnd
         self.max_depth = max_depth
         self.unicode_on = unicode_on
         self.allow_nul_keys = allow_nul_keys
+        self.comments = comments      # insignificant bytes may then be /* ... */ and // ... \n (configurations with comments)
 
     # --- strings: python `bytes` of the decoded content; spelling chosen at render time
     def string(self, key=False):
@@ -140,6 +141,14 @@ class Gen:
     # --- rendering with free choices
     def ws(self):
         r = self.r
+        if self.comments and r.random() < 0.12:
+            body = bytes(r.choice(b"ab*/ \"'[]{},:1\\\n") for _ in range(r.randrange(0, 8)))
+            if r.random() < 0.5:
+                body = body.replace(b"*/", b"* /")
+                while body.endswith(b"*"):      # "**/" is fine, but keep the terminator unambiguous for the oracle's stripper
+                    body = body[:-1]
+                return r.choice([b"", b" "]) + b"/*" + body + b"*/" + r.choice([b"", b"\n"])
+            return b"//" + body.replace(b"\n", b" ") + b"\n"
         if r.random() < 0.6:
             return b""
         return b"".join(r.choice(WS) for _ in range(r.randrange(1, 4)))
@@ -197,7 +206,10 @@ class Gen:
 
     def document(self):
         t = self.value()
-        return t, self.ws() + self.render(t) + self.ws()
+        tail = self.ws()
+        if t[0] == "num" and tail[:1] == b"/":
+            tail = b" " + tail      # a top-level number must be followed by whitespace or the end (C10's trailing rule)
+        return t, self.ws() + self.render(t) + tail
 
 def depth(t):
     if t[0] == "arr":
@@ -308,9 +320,40 @@ def check_number(lit, d):
         return f"literal {lit} -> {x!r}: wrong magnitude"
     return None
 
-def expected_dump(text):
+def strip_comments(text):
+    """remove /* */ and // comments outside strings (for the RFC oracle, which does not know them)"""
+    out = bytearray()
+    i, n = 0, len(text)
+    while i < n:
+        c = text[i:i + 1]
+        if c == b'"':
+            j = i + 1
+            while j < n and text[j:j + 1] != b'"':
+                j += 2 if text[j:j + 1] == b"\\" else 1
+            out += text[i:j + 1]
+            i = j + 1
+        elif text[i:i + 2] == b"/*":
+            j = text.find(b"*/", i + 2)
+            if j < 0:
+                raise ValueError("unterminated comment")
+            out += b" "
+            i = j + 2
+        elif text[i:i + 2] == b"//":
+            j = text.find(b"\n", i)
+            if j < 0:
+                raise ValueError("unterminated line comment")
+            out += b" "
+            i = j + 1
+        else:
+            out += c
+            i += 1
+    return bytes(out)
+
+def expected_dump(text, comments=False):
     """canonical dump (with numbers as ('num', literal) holes) expected for a valid RFC 8259 text,
     computed with Python's json only. Returns a tree: str for fixed parts, ('num', lit)."""
+    if comments:
+        text = strip_comments(text)
     def pairs(ps):
         out = []   # first position, last value
         for k, v in ps:
@@ -469,7 +512,8 @@ def boundary_json(rnd, n):
     return out[:n]
 
 TOKENS = [b"[", b"]", b"{", b"}", b",", b":", b'"a"', b"'b'", b"k", b"1", b"-2.5e3", b"true", b"false", b"null",
-          b" ", b"//c\n", b"/*c*/", b"NaN", b"Infinity", b"\x00", b"@", b'"', b"\\", b"0", b"-", b"1e", b"tru"]
+          b" ", b"//c\n", b"/*c*/", b"NaN", b"Infinity", b"\x00", b"@", b'"', b"\\", b"0", b"-", b"1e", b"tru",
+          b"/*", b"*", b"/"]
 
 def token_sequences(max_len):
     """all token sequences up to max_len (bounded-exhaustive stream for C10)"""
